@@ -41,6 +41,13 @@ func runC02(c *core.Ctx) {
 	if lensAccessorRules(c) != nil {
 		offsRules(c)
 	}
+	// "an unknown name, a type no field has ... is never silently accepted": the derivations hand the names / the
+	// focus types on positionally (no names => by type, names => by name, never a mix), and the lookups answer only
+	// on an exact match (both shared with C01 / C03)
+	c.Doc("pairing", 36, "ForProductN / ForSpectrumN / NewN / FMapN positional consistency")
+	pairingRules(c)
+	c.Doc("first-match", 3, "lookups return the first element matching exactly")
+	firstMatchRules(c)
 
 	nt := lensType(c)
 	if nt == nil {
